@@ -245,7 +245,12 @@ impl C20 {
 
     fn gc_case(&self, ctx: &mut Ctx, rng: &mut Rng) {
         let n = rng.range(1, ctx.by_tier(40, 120, 2000));
-        let s = rng.bytes_over(*rng.clone().pick(&[&b"ACGT"[..], &b"ACGTNacgtn"[..], &b"GCgc"[..], &b"ATat"[..], &b"ACGTXYZ-"[..]]), n);
+        let s: Vec<u8> = if rng.chance(1, 4) {
+            // arbitrary bytes incl. the high-bit neighbours of G/C/g/c (0xC3, 0xC7, 0xE3, 0xE7)
+            (0..n).map(|_| if rng.chance(1, 3) { *rng.pick(&[0xC3u8, 0xC7, 0xE3, 0xE7, 0x43, 0x47, 0x63, 0x67, 0x03, 0x07]) } else { rng.below(256) as u8 }).collect()
+        } else {
+            rng.bytes_over(*rng.clone().pick(&[&b"ACGT"[..], &b"ACGTNacgtn"[..], &b"GCgc"[..], &b"ATat"[..], &b"ACGTXYZ-"[..]]), n)
+        };
         let gc = |it: &mut dyn Iterator<Item = &u8>| -> f32 {
             let (mut l, mut c) = (0usize, 0usize);
             for &b in it {
